@@ -1069,10 +1069,10 @@ def deep_eval(ctx, exe, mexe, cases, stats, ladder=True):
         return 0
     args = ("--stack-kib", str(DEEP_STACK_KIB))
     res = run_impl(ctx, exe, [deep_line(c) for c in cases], timeout=240, args=args)
-    small = [(c, deep_rows(c["N"], c["k"], c["shape"], c["rev"])) for c in cases if c["N"] <= 2000]
+    small = [(c, deep_rows(c["N"], c["k"], c["shape"], c["rev"])) for c in cases if c["N"] <= 64]
     spec = {}
     if small:
-        mo = run_model(ctx, mexe, [g_line(c["N"], c["k"], rows) for c, rows in small])
+        mo = run_model(ctx, mexe, [g_line(c["N"], c["k"], rows) for c, rows in small], timeout=300)
         for (c, rows), o in zip(small, mo):
             if len(o) != 7 or o[0] != "G" or o[3] != "1":
                 raise vlib.BuildError("model driver: unexpected answer on a generated graph %r" % (o,))
